@@ -15,64 +15,9 @@
    Cross-entropy values are parameters (per token), never computed here. *)
 From Coq Require Import ZArith QArith Qabs List Bool.
 From FV Require Import Common.ListX Common.PySem.
+From FV Require Export Model.C14_Prims gen.Gen_metrics_eval.
 Import ListNotations.
 Local Open Scope Z_scope.
-
-(* ---------- extended integer scores ---------- *)
-Inductive ext := NInf | Fin (z : Z) | PInf.
-
-Definition ext_ltb (a b : ext) : bool :=
-  match a, b with
-  | NInf, NInf => false
-  | NInf, _ => true
-  | Fin _, NInf => false
-  | Fin x, Fin y => x <? y
-  | Fin _, PInf => true
-  | PInf, _ => false
-  end.
-Definition ext_leb (a b : ext) : bool := negb (ext_ltb b a).
-Definition ext_neg (a : ext) : ext :=
-  match a with NInf => PInf | Fin z => Fin (- z) | PInf => NInf end.
-(* float addition of a finite prediction and a logits-mask entry *)
-Definition add_mask (p : Z) (m : ext) : ext :=
-  match m with NInf => NInf | Fin z => Fin (p + z) | PInf => PInf end.
-
-Definition map2 {A B C} (f : A -> B -> C) (l1 : list A) (l2 : list B) : list C :=
-  map (fun p => f (fst p) (snd p)) (combine l1 l2).
-
-(* ---------- argmax: first index of the maximum ---------- *)
-Fixpoint argmax_v (l : list ext) : ext * nat :=
-  match l with
-  | [] => (NInf, O)
-  | x :: r =>
-      match r with
-      | [] => (x, O)
-      | _ => let mj := argmax_v r in
-             if ext_ltb x (fst mj) then (fst mj, S (snd mj)) else (x, O)
-      end
-  end.
-Definition argmax (l : list ext) : nat := snd (argmax_v l).
-
-(* ---------- stable ascending argsort (insertion sort on (key, index) pairs) ---------- *)
-Fixpoint ins (p : ext * nat) (l : list (ext * nat)) : list (ext * nat) :=
-  match l with
-  | [] => [p]
-  | q :: r => if ext_leb (fst p) (fst q) then p :: q :: r else q :: ins p r
-  end.
-Definition sort_pairs (a : nat) (keys : list ext) : list (ext * nat) :=
-  fold_right ins [] (combine keys (seq a (length keys))).
-Definition argsort (keys : list ext) : list nat := map snd (sort_pairs 0 keys).
-
-(* ---------- scalars ---------- *)
-Definition b2z (b : bool) : Z := if b then 1 else 0.
-Definition zsum (l : list Z) : Z := fold_right Z.add 0 l.
-Definition qsum (l : list Q) : Q := fold_right Qplus 0%Q l.
-
-(* MeanStat.new: weight = max(0, weight); accum = where(weight == 0, 0, accum) *)
-Definition mean_new (a w : Z) : Z * Z :=
-  let w' := Z.max 0 w in (if w' =? 0 then 0 else a, w').
-Definition mean_newQ (a : Q) (w : Z) : Q * Z :=
-  let w' := Z.max 0 w in (if w' =? 0 then 0%Q else a, w').
 
 (* (target == argmax(pred)) *)
 Definition acc_correct (s : list ext) (t : Z) : Z := b2z (t =? Z.of_nat (argmax s)).
@@ -179,22 +124,26 @@ Definition seqZ (pp : bool) (l : list (Z * Z)) : result :=
 Definition seqQ (pp : bool) (l : list (Q * Z)) : result :=
   RMean (if pp then [Z.of_nat (length l)] else []) (map fst l) (map (fun p => zq (snd p)) l).
 
+(* the statistic is computed by the functions TRANSLATED on this run from the
+   evaluate_example bodies of fedjax/core/metrics.py (gen/Gen_metrics_eval.v); the
+   hand-written m_* functions above are their specifications (Proofs/C14_Proofs.v
+   proves gen_X = m_X for every class, Props/C14.v: C14_translated_metrics_are_model) *)
 Definition eval_base (c : base_case) : result :=
   match c with
-  | KCE ce => scalarQ (m_cross_entropy ce)
-  | KAcc s t => scalarZ (m_accuracy s t)
-  | KTopK k s t => scalarZ (m_topk k s t)
-  | KSeqTokCE masked pp targets ce => seqQ pp (m_seq_token_ce masked pp targets ce)
-  | KSeqCE masked targets ce => scalarQ (m_seq_ce masked targets ce)
-  | KSeqTokAcc masked lm pp targets scores => seqZ pp (m_seq_token_acc masked lm pp targets scores)
-  | KSeqTokTopK k masked lm pp targets scores => seqZ pp (m_seq_token_topk k masked lm pp targets scores)
-  | KTokCount masked targets => RSum [] [zq (m_seq_token_count masked targets)]
-  | KSeqCount masked targets => RSum [] [zq (m_seq_count masked targets)]
-  | KTrunc eos masked targets => scalarZ (m_seq_trunc eos masked targets)
-  | KOOV oovs masked pp targets => seqZ pp (m_seq_oov oovs masked pp targets)
-  | KLen masked targets => scalarZ (m_seq_length masked targets)
+  | KCE ce => scalarQ (gen_cross_entropy 0 [] ce)
+  | KAcc s t => scalarZ (gen_accuracy t s)
+  | KTopK k s t => scalarZ (gen_topk k t s)
+  | KSeqTokCE masked pp targets ce => seqQ pp (gen_seq_token_ce masked pp targets [] ce)
+  | KSeqCE masked targets ce => scalarQ (gen_seq_ce masked targets [] ce)
+  | KSeqTokAcc masked lm pp targets scores => seqZ pp (gen_seq_token_acc masked lm pp targets scores)
+  | KSeqTokTopK k masked lm pp targets scores => seqZ pp (gen_seq_token_topk k masked lm pp targets scores)
+  | KTokCount masked targets => RSum [] [zq (gen_seq_token_count masked targets)]
+  | KSeqCount masked targets => RSum [] [zq (gen_seq_count masked targets)]
+  | KTrunc eos masked targets => scalarZ (gen_seq_trunc eos masked targets)
+  | KOOV oovs masked pp targets => seqZ pp (gen_seq_oov oovs masked pp targets)
+  | KLen masked targets => scalarZ (gen_seq_length masked targets)
   | KConf nc s t =>
-      match m_confusion nc s t with
+      match gen_confusion nc t s with
       | Some m => RSum [nc; nc] (map zq (concat m))
       | None => RErr
       end
@@ -204,9 +153,9 @@ Definition zeros_like (l : list Q) : list Q := map (fun _ => 0%Q) l.
 Definition eval_domain (nd : nat) (dom : Z) (r : result) : result :=
   match r with
   | RMean sh a w =>
-      RMean (Z.of_nat nd :: sh) (concat (per_domain nd dom (zeros_like a) a))
-            (concat (per_domain nd dom (zeros_like w) w))
-  | RSum sh a => RSum (Z.of_nat nd :: sh) (concat (per_domain nd dom (zeros_like a) a))
+      RMean (Z.of_nat nd :: sh) (concat (gen_per_domain nd dom (zeros_like a) a))
+            (concat (gen_per_domain nd dom (zeros_like w) w))
+  | RSum sh a => RSum (Z.of_nat nd :: sh) (concat (gen_per_domain nd dom (zeros_like a) a))
   | RErr => RErr
   end.
 
